@@ -344,6 +344,12 @@ pub fn gen_inputs(cfg: &RunCfg) -> Vec<(String, String)> {
         "Tz ::= [170141183460469231731687303715884105727] INTEGER",
         // references that are not type references behind COMPONENTS OF; constraints that are not PER-visible as operands
         "Gx ::= SEQUENCE { a INTEGER, ..., [[ COMPONENTS OF x.&y ]] }",
+        // field paths of two and three steps, object and class first, alone and next to a named component
+        "Gx2 ::= SEQUENCE { a INTEGER, ..., [[ COMPONENTS OF x.&y.&Z ]] }",
+        "Gx3 ::= SEQUENCE { a INTEGER, ..., [[ COMPONENTS OF MY-CLASS.&next.&more.&Hops ]], [[ b NULL, COMPONENTS OF x.&y.&Z ]] }",
+        "Gx4 ::= SET { ..., [[ COMPONENTS OF x.&y.&z ]] }",
+        // numbers beyond what a machine float / integer holds, as value and as DEFAULT
+        "Rl ::= SEQUENCE { a REAL DEFAULT 9999999999999999999999999999999999999999999999999999999999999999999999999999999999999999999999999999999999999999999999999999999999999999999999999999999999999999999999999999999999999999999999999999999999999999999999999999999999999999999999999999999999999999999999999999999999999999999999999999999999999999999999999999999999999999999.5 }\nrl REAL ::= 9999999999999999999999999999999999999999999999999999999999999999999999999999999999999999999999999999999999999999999999999999999999999999999999999999999999999999999999999999999999999999999999999999999999999999999999999999999999999999999999999999999999999999999999999999999999999999999999999999999999999999999999999999999999999999999999999999999999999999999999.0\nrs REAL ::= { mantissa 1, base 10, exponent 99999 }",
         "Gy ::= SEQUENCE { COMPONENTS OF MY-CLASS.&Type, b BOOLEAN }",
         "Pv1 ::= INTEGER (SIZE (PATTERN \"x\") ^ 1 | PATTERN \"y\")",
         "Pv2 ::= IA5String (FROM (PATTERN \"x\") ^ \"a\" | PATTERN \"y\")",
